@@ -463,11 +463,18 @@ def emit(info):
     return "\n".join(L)
 
 
-def generate(ctx):
-    """Used by bin/gen_all and checks/C11.py: (re)write coq/Gen/ErrnoGen.v."""
+def generate(ctx, with_contracts=True):
+    """Used by bin/gen_all and checks/C11.py: (re)write coq/Gen/ErrnoGen.v and - unless the caller does that
+    itself (checks/C11.py, to keep the two failures apart) - coq/Gen/ContractGen.v (translate/contracts.py)."""
     import vplib
     info = translate(os.path.join(ctx.repo, "src"))
     ctx.write_if_changed(os.path.join(vplib.COQDIR, "Gen", "ErrnoGen.v"), emit(info))
+    if with_contracts:
+        import contracts
+        try:
+            info["contracts"] = contracts.generate(ctx)
+        except (contracts.ContractError, errno_orders.OrderError) as e:
+            raise TranslateError("contracts: %s" % e)
     return info
 
 
